@@ -876,11 +876,14 @@ func (r *runningStep) executeSubWorkflows(input executeInput) ([]any, map[int]st
 			}
 
 			r.logger.Debugf("Executing item %d...", i)
-			// Ignore the output ID here because it can only be "success"
-			_, outputData, err := r.workflow.Execute(r.ctx, input)
+			outputID, outputData, err := r.workflow.Execute(r.ctx, input)
 			r.lock.Lock()
 			if err != nil {
 				itemErrors[i] = err.Error()
+			} else if outputID != "success" {
+				// The subworkflow may declare other outputs than "success". Their data does
+				// not match the schema of the success list, so the item counts as failed.
+				itemErrors[i] = fmt.Sprintf("subworkflow finished with output '%s' instead of 'success'", outputID)
 			} else {
 				itemOutputs[i] = outputData
 			}
